@@ -198,7 +198,7 @@ Definition pwl_eval (p lb : Z) (alphas betas : list Z) (left_fp divisor : Z) (x 
   let r := wadd 64 (wadd 64 (wmul 64 main is_main) (wmul 64 leftv is_left)) (wmul 64 rightv is_right) in
   Ok (trunc 64 true r (2 ^ p)).
 
-(* the segment the code selects, in integer terms (used by the theorems; tied separately) *)
+(* the segment the code selects, in integer terms (used by the theorems) *)
 Definition pwl_segment (lb left_fp divisor x : Z) : Z :=
   let q := Z.quot (sv 64 (wsub 64 x (wrap 64 left_fp))) divisor in
   if q <? 0 then 0 else if 2 ^ lb <=? q then 2 ^ lb + 1 else q + 1.
@@ -206,9 +206,10 @@ Definition pwl_segment (lb left_fp divisor x : Z) : Z :=
 (* ---------------------------------------------------------------- error tests (integer only) *)
 (* |a - 2^cap/d| <= tol  <->  |a d - 2^cap| <= tol d *)
 Definition recip_close (cap tol d a : Z) : bool := Z.abs (a * d - 2 ^ cap) <=? tol * d.
-(* |a - 2^cap/sqrt d| <= tol  <->  (a-tol)^2 d <= 2^(2cap) <= (a+tol)^2 d   (a >= tol) *)
+(* |a - 2^cap/sqrt d| <= tol  <->  (a <= tol or (a-tol)^2 d <= 2^(2cap)) and 2^(2cap) <= (a+tol)^2 d *)
 Definition isqrt_close (cap tol d a : Z) : bool :=
-  (tol <=? a) && ((a - tol) * (a - tol) * d <=? 2 ^ (2 * cap)) && (2 ^ (2 * cap) <=? (a + tol) * (a + tol) * d).
+  ((a <=? tol) || ((a - tol) * (a - tol) * d <=? 2 ^ (2 * cap)))
+  && (2 ^ (2 * cap) <=? (a + tol) * (a + tol) * d).
 (* |a - 2^cap n/d| <= (rn/rd) 2^cap n/d + tol *)
 Definition div_close (cap rn rd tol n d a : Z) : bool :=
   rd * Z.abs (a * d - 2 ^ cap * n) <=? rn * 2 ^ cap * n + rd * tol * d.
